@@ -50,6 +50,7 @@ def run(ck):
     r6_every_file_saved(ck)
     r6b_no_entry_leaves_the_file_map(ck)
     r7_refused_rename_puts_content_back(ck)
+    r8_errors_are_not_turned_into_not_applied(ck)
     r4(ck, par)
     r5(ck, main, cmd_push, seq, par)
 
@@ -107,6 +108,34 @@ def r6b_no_entry_leaves_the_file_map(ck, rule="C05-R6b"):
                    "name of a rename, which is the only trace that the old file has to be deleted" % (fn.id, op), fn.where(t))
     if not bad:
         ck.ok(rule, "no entry leaves the file map before it is saved", "%d operations on maps of file records, none of them removes" % n_ops)
+
+
+def r8_errors_are_not_turned_into_not_applied(ck, rule="C05-R8"):
+    """apply_one_file_patch has three outcomes: Ok(true) applied, Ok(false) this file patch failed (the drivers then undo what the
+    entries on the applied stack record), Err abort the run before anything is saved.  An error that arises half-way - after a file's
+    content was moved out for a rename, before anything was pushed onto the stack - must stay an error: answered with Ok(false), the
+    drivers go on to save a file map that no undo covers.  No `Err` side of a match on a Result inside the function reaches an `Ok`
+    return."""
+    fn = ck.anchor("apply_one_file_patch")
+    if fn is None:
+        return
+    sws = pt.discr_switches(fn, lambda e, rv: (rv.get("adt") or "") == "core::result::Result")
+    ok_rets = {bb for bb, idx, st in fn.stmts() if st["k"] == "assign" and st["lhs"]["l"] == 0 and not st["lhs"].get("p") and
+               st["rv"]["k"] == "agg" and st["rv"].get("variant") == "Ok"}
+    n = 0
+    for sw in sws:
+        e = sw["edges"].get("Err")
+        if not e:
+            continue
+        n += 1
+        region = cfg.dominated_by_edge(fn, e)
+        hit = sorted(region & ok_rets)
+        ck.require(not hit, rule, "an error inside apply_one_file_patch is not answered with Ok",
+                   "on the Err side of a match on a Result (%s) apply_one_file_patch returns Ok(..): an error that arose while the file patch was "
+                   "being applied (possibly after a file's content was moved out for a rename) is reported as 'did not apply', and the run goes "
+                   "on to save files that no entry on the applied stack covers" % df.show(sw["expr"], 70),
+                   fn.where(fn.blocks[hit[0]]["stmts"][-1]) if hit and fn.blocks[hit[0]]["stmts"] else fn.where(), ok_detail="the Err side does not reach an Ok return")
+    ck.info(rule, "matches on a Result in apply_one_file_patch", "%d examined" % n)
 
 
 def _load_key(e, fn=None):
